@@ -22,6 +22,12 @@ import (
 // map (where each key-value pair counts as two items).
 const MaxArrayDecodeLength = 100_000
 
+// MaxDecodeDepth limits how deeply arrays, maps and tags may be nested inside
+// one another in a single item being decoded. Without a limit, a few kilobytes
+// of nested array heads cost stack, time and (because every level wraps the
+// error of the level below it) memory quadratic in the depth.
+const MaxDecodeDepth = 128
+
 // Major types (high 3 bits)
 const (
 	unsignedIntMajorType byte = 0x00
@@ -222,6 +228,9 @@ func Unmarshal(data []byte, v any) error {
 type Decoder struct {
 	r io.Reader
 
+	// current nesting depth of Decode/decodeRaw calls
+	depth int
+
 	DecoderOptions
 }
 
@@ -233,6 +242,12 @@ func NewDecoder(r io.Reader) *Decoder { return &Decoder{r: r} }
 
 // Decode a single CBOR item from the internal [io.Reader].
 func (d *Decoder) Decode(v any) error {
+	if d.depth >= MaxDecodeDepth {
+		return fmt.Errorf("nesting exceeds max depth: %d", MaxDecodeDepth)
+	}
+	d.depth++
+	defer func() { d.depth-- }()
+
 	// Opportunistically use StreamUnmarshaler or Unmarshaler implementation
 	for rv := reflect.ValueOf(v); (rv.Kind() == reflect.Pointer || rv.Kind() == reflect.Interface) && !rv.IsNil(); rv = rv.Elem() {
 		// Use StreamUnmarshaler implementation unless it comes from a
@@ -275,6 +290,12 @@ func (d *Decoder) Decode(v any) error {
 
 // Decode one item to bytes
 func (d *Decoder) decodeRaw() ([]byte, error) {
+	if d.depth >= MaxDecodeDepth {
+		return nil, fmt.Errorf("nesting exceeds max depth: %d", MaxDecodeDepth)
+	}
+	d.depth++
+	defer func() { d.depth-- }()
+
 	highThreeBits, lowFiveBits, additional, err := d.typeInfo()
 	if err != nil {
 		return nil, err
